@@ -35,6 +35,10 @@ FAMILIES = {
                      gap=[0, 60, 120, 480, 1440], ntasks=(3, 9), rdaily=0.2, team=0.2, G=[3600, 3600, 1800]),
     "alap": dict(alap=1.0, dupid=0.5, nest=0.5, dep=0.7, gap=[0, 0, 60, 120, 480], onstart=0.0, precedes=0.1, pin=0.0, milestone=0.1,
                  efforts=[60, 120, 240, 480, 90, 45], effs=["1.0", "1.0", "0.5", "2.0"], contdep=0.2, ntasks=(2, 6)),
+    # backward projects inside the dialect of Model/Alap.v (whole-slot efforts and gaps, no on-start edges)
+    "alapcore": dict(alap=1.0, dupid=0.3, nest=0.5, dep=0.7, gap=[0, 0, 60, 120, 480], onstart=0.0, precedes=0.1, pin=0.0,
+                     milestone=0.1, efforts=[60, 120, 240, 480], contdep=0.2, ntasks=(2, 6), team=0.2,
+                     rdaily=0.3, rweekly=0.15, gdaily=0.2, tdaily=0.15, group=0.4, hours=0.2, rleave=0.2, G=[3600, 3600, 1800]),
     "taskalap": dict(taskalap=0.5, dep=0.4, onstart=0.0, pin=0.0, efforts=[60, 120, 240, 90], ntasks=(1, 5), milestone=0.0),
     "trees": dict(group=0.5, galloc=0.2, dupid=0.3, contstart=0.3, nest=0.8, depth=4, ntasks=(3, 10), dep=0.3, milestone=0.15, pin=0.15, contdep=0.3, unsched=0.3),
 }
